@@ -3,6 +3,7 @@
 from enum import StrEnum
 
 from rzilcompiler.Transformer.Pures.CompareOp import CompareOp
+from rzilcompiler.Transformer.Pures.Bool import Bool
 from rzilcompiler.Transformer.Pures.Pure import Pure
 from rzilcompiler.Transformer.Pures.PureExec import PureExec
 from rzilcompiler.Transformer.ValueType import ValueType, VTGroup
@@ -28,7 +29,7 @@ class BooleanOp(PureExec):
         a = (
             self.ops[0].il_read()
             if (
-                isinstance(self.ops[0], BooleanOp) or isinstance(self.ops[0], CompareOp)
+                isinstance(self.ops[0], (BooleanOp, CompareOp, Bool))
             )
             else f"NON_ZERO({self.ops[0].il_read()})"
         )
@@ -38,7 +39,7 @@ class BooleanOp(PureExec):
         b = (
             self.ops[1].il_read()
             if (
-                isinstance(self.ops[1], BooleanOp) or isinstance(self.ops[1], CompareOp)
+                isinstance(self.ops[1], (BooleanOp, CompareOp, Bool))
             )
             else f"NON_ZERO({self.ops[1].il_read()})"
         )
